@@ -355,6 +355,7 @@ func genFull(seed int64, property string) *Plan {
 		faulty = r.Intn(4) > 0
 		crashes = r.Intn(3) == 0
 		nAdhoc, nIndep = r.Intn(2), 0
+		p.CronDupPm = []int{0, 200, 500, 1000}[r.Intn(4)]
 	case "C05", "C06":
 		cron = r.Intn(3) == 0
 		faulty = property == "C05" && r.Intn(3) > 0 || property == "C06" && r.Intn(3) == 0
